@@ -1,5 +1,5 @@
 import AfkakProofs.Consumer.Trace
-import AfkakProofs.Consumer.B5_QuietG9
+import AfkakProofs.Consumer.B5_N9
 import AfkakProps.Open.C13
 /-!
 # C13 — stop and shutdown leave nothing running and report once
@@ -89,66 +89,22 @@ theorem C13_shutdown_waits_counterexample : ¬ Afkak.Props.Open.C13.C13_shutdown
   revert h1
   decide +kernel
 
-/-- … and only then: on a trace in which `shutdown()` is never called from inside the processor the
-    monitor that judges this situation accepts. -/
-theorem C13_shutdown_waits_partial (group : Bool) (tr : List Item) (h : ∀ x ∈ tr, x ≠ .ob (.act .shutdown)) :
-    C13.shutdownInprocOk group tr = true := by
-  have key : ∀ l : List Item, (∀ x ∈ l, x ≠ .ob (.act .shutdown)) →
-      (runR (C13.shStep group true) {} l).bad = false ∧ (runR (C13.shStep group true) {} l).askedInProc = false ∧
-      (runR (C13.shStep group true) {} l).savedAskedInProc = false := by
-    intro l
-    induction l with
-    | nil => intro _; exact ⟨rfl, rfl, rfl⟩
-    | cons x l ih =>
-      intro hl
-      obtain ⟨h1, h2, h3⟩ := ih (fun y hy => hl y (List.mem_cons_of_mem _ hy))
-      have hx := hl x (List.mem_cons_self ..)
-      simp only [runR_cons]
-      generalize runR (C13.shStep group true) {} l = m at *
-      unfold C13.shStep
-      rcases x with e | e | o
-      · cases e <;> simp_all <;> (try split) <;> simp_all
-      · simp_all
-      · cases o <;> simp_all <;> (repeat' split) <;> simp_all
-  have := (key tr.reverse (by simpa using h)).1
-  simp [C13.shutdownInprocOk, accepts, HasBad.bad, this]
-
-/-! ## The depth bound of the model, and what holds above it
+/-! ## The depth bound of the model
 
 `Cfg.depth` is how deep the model follows re-entrant calls; at depth 0 even the `stop()` that ends a graceful
-`shutdown()` is not followed (the model reports `crash "re-entrancy depth"` and goes on), at depth 1 a
-`shutdown()` called from inside the processor is not.  The open statements `C13_quiescent_after_stop`,
-`C13_start_fires_once` and `C13_no_crash` quantify over EVERY configuration, depth included, and are therefore
-false of the model as stated (an artefact of the bound, not behaviour of the code: the harness and the driver
-run the model at depth 4, where model and code agree on the witness `start 0; shutdown`).  What holds needs
-`2 ≤ cfg.depth`. -/
+`shutdown()` is not followed (the model reports `crash "re-entrancy depth"` and goes on), at depth 1 a `shutdown()`
+called from inside the processor is not.  The code has no such bound; the harness and the driver run the model at
+depth 4, and nothing nests deeper than 2.  The statements of this property are therefore about `2 ≤ cfg.depth`.
+The three examples below are what the bound does to the model below that (they say nothing about the code). -/
 
 /-- depth 0: re-entrant calls are not followed by the model -/
 def d0Cfg : Cfg :=
   { group := false, autoN := 0, autoS := 0, bufInit := 100, bufMax := none, retryInit := 1 / 4, retryMax := 2,
     maxAttempts := 0, reset := none, depth := 0 }
 
-theorem C13_quiescent_after_stop_counterexample : ¬ Afkak.Props.Open.C13.C13_quiescent_after_stop := by
-  intro h
-  have h1 := h d0Cfg [] [.start 0, .shutdown]
-  revert h1
-  decide +kernel
-
-theorem C13_start_fires_once_counterexample : ¬ Afkak.Props.Open.C13.C13_start_fires_once := by
-  intro h
-  have henv : Afkak.Props.Open.C13.EnvOk none [.start 0, .shutdown] := by
-    refine ⟨fun _ _ h => (by cases h), fun e he => ?_⟩
-    simp only [List.mem_cons, List.not_mem_nil, or_false] at he
-    rcases he with rfl | rfl <;> trivial
-  have h1 := h d0Cfg [] [.start 0, .shutdown] henv
-  revert h1
-  decide +kernel
-
-theorem C13_no_crash_counterexample : ¬ Afkak.Props.Open.C13.C13_no_crash := by
-  intro h
-  have h1 := h d0Cfg [] [.start 0, .shutdown] (fun e he => by cases he)
-  revert h1
-  decide +kernel
+example : C13.quiescentOk (trace d0Cfg [] [.start 0, .shutdown]) = false := by decide +kernel
+example : C13.startOnceOk (trace d0Cfg [] [.start 0, .shutdown]) = false := by decide +kernel
+example : C13.noCrashOk (trace d0Cfg [] [.start 0, .shutdown]) = false := by decide +kernel
 
 /-- Quiescence after `stop()` on EVERY trace, with or without a consumer group, at every depth ≥ 2 (the harness
     runs depth 4; re-entrant calls never nest deeper than 2 in the model): whatever the events, cancel outcomes,
@@ -157,14 +113,27 @@ theorem C13_no_crash_counterexample : ¬ Afkak.Props.Open.C13.C13_no_crash := by
     outstanding and no processor result is pending, and there is no fetch / offset / processor / timer activity until
     the next `start()`, and no commit activity either unless the application itself calls `commit()` on the stopped
     consumer.  The proof is the invariant `BG.QG` relating the monitor's state to the model's along the trace
-    (`AfkakProofs/Consumer/B_QuietG1-7.lean`, `B5_QuietG8-9.lean`). -/
-theorem C13_quiescent_after_stop_partial (cfg : Cfg) (script : List PEntry) (evs : List Ev) (hd : 2 ≤ cfg.depth) :
-    C13.quiescentOk (trace cfg script evs) = true := by
+    (`AfkakProofs/Consumer/B5_N1.lean` … `B5_N9.lean`). -/
+theorem C13_quiescent_after_stop : Afkak.Props.Open.C13.C13_quiescent_after_stop := by
+  intro cfg script evs hd
   letI : EnvHyp := ⟨False⟩
   have hd' : cfg.depth = (cfg.depth - 2) + 2 := by omega
-  exact accepts_trace _ _ cfg script evs (BG.run_q (cfg.depth - 2) hd' script evs).1.ok
+  exact accepts_trace _ _ cfg script evs (BN.run_q (cfg.depth - 2) hd' script evs).1.ok
 
-/-! Non-vacuity: a configuration the partial theorem speaks about (consumer group, depth 4), and a trace of it on
+/-- No API call ends in an exception the API does not document, on EVERY trace at every depth ≥ 2 - whatever the
+    events, cancel outcomes, commit outcomes and the processor's re-entrant `stop()` / `commit()` / `shutdown()` calls:
+    `_send_commit_request` is never entered with a commit request outstanding or with nothing processed, the shutdown
+    continuations never call `stop()` on a stopped consumer nor fire a missing `_shutdown_d`, `stop()`'s loop over
+    `_commit_ds` terminates, `stop()` never finds `_start_d` unset, and the model's depth marker is not reached.  (The
+    same invariant as for quiescence, with two more fields: no `crash` observation so far; a commit in progress has
+    something to commit.) -/
+theorem C13_no_crash : Afkak.Props.Open.C13.C13_no_crash := by
+  intro cfg script evs hd
+  letI : EnvHyp := ⟨False⟩
+  have hd' : cfg.depth = (cfg.depth - 2) + 2 := by omega
+  exact BN.noCrash_of _ (BN.run_q (cfg.depth - 2) hd' script evs).1.ncOut
+
+/-! Non-vacuity: a configuration the theorem speaks about (consumer group, depth 4), and a trace of it on
     which `stop()` has something to cancel on the commit side (a manual commit in flight: request 1) and a refetch
     timer armed - the monitor has to see both cancellations to accept. -/
 def qCfg : Cfg :=
@@ -188,16 +157,15 @@ C13_stop_when_stopped
 C13_restartable
 C13_restart_after_stop
 C13_shutdown_waits_counterexample
-C13_shutdown_waits_partial
-C13_quiescent_after_stop_counterexample
-C13_start_fires_once_counterexample
-C13_no_crash_counterexample
-C13_quiescent_after_stop_partial
+C13_quiescent_after_stop
+C13_no_crash
 -/
 /- OPEN_STATEMENTS
 C13_start_fires_once
-C13_quiescent_after_stop
 C13_shutdown_sequence
 C13_shutdown_waits_inproc
-C13_no_crash
+C13_commit_bounded
+C13_shutdown_never_stuck
+C13_restart_alive
+C13_shutdown_failure_own
 -/
